@@ -554,8 +554,8 @@ func (g *Gen) noteAbsHeap(name string) {
 	if len(g.absHeaps) > 1 && !g.declared["bs_fdiff"] {
 		g.declared["bs_fdiff"] = true
 		g.header = append(g.header,
-			"(declare-fun bs_fdiff ((Array Loc (_ BitVec 8)) (Array Loc (_ BitVec 8)) Slice Slice) (_ BitVec 64))",
-			"(assert (forall ((h1 (Array Loc (_ BitVec 8))) (h2 (Array Loc (_ BitVec 8))) (s1 Slice) (s2 Slice)) (! (or (= (bs_abs h1 s1) (bs_abs h2 s2)) (not (= (s_len s1) (s_len s2))) (and (bvult (bs_fdiff h1 h2 s1 s2) (s_len s1)) (not (= (select h1 (elem (s_arr s1) (bvadd (s_off s1) (bs_fdiff h1 h2 s1 s2)))) (select h2 (elem (s_arr s2) (bvadd (s_off s2) (bs_fdiff h1 h2 s1 s2)))))))) :pattern ((bs_abs h1 s1) (bs_abs h2 s2)))))")
+			"(declare-fun bs_fdiff ((Array Loc (_ BitVec 8)) (Array Loc (_ BitVec 8)) Slice Slice) (_ BitVec 64))")
+		g.sfAxioms = append(g.sfAxioms, sfAxiom{trigs: []string{"(bs_abs "}, light: true, text: "(assert (forall ((h1 (Array Loc (_ BitVec 8))) (h2 (Array Loc (_ BitVec 8))) (s1 Slice) (s2 Slice)) (! (or (= (bs_abs h1 s1) (bs_abs h2 s2)) (not (= (s_len s1) (s_len s2))) (and (bvult (bs_fdiff h1 h2 s1 s2) (s_len s1)) (not (= (select h1 (elem (s_arr s1) (bvadd (s_off s1) (bs_fdiff h1 h2 s1 s2)))) (select h2 (elem (s_arr s2) (bvadd (s_off s2) (bs_fdiff h1 h2 s1 s2)))))))) :pattern ((bs_abs h1 s1) (bs_abs h2 s2)))))"})
 	}
 }
 
@@ -587,16 +587,19 @@ func (g *Gen) useByteSeq() {
 		"(declare-fun bs_cmp (ByteSeq ByteSeq) (_ BitVec 64))",
 		"(declare-fun bs_rank (ByteSeq) Int)",
 		"(declare-const bs_empty ByteSeq)",
+	)
+	// the quantified theory of ByteSeq joins a query only when the query mentions it
+	bsTrigs := []string{"(bs_abs ", "(bs_cmp ", "(bs_rank ", "(bs_at ", "(bs_len "}
+	for _, t := range []string{
 		"(assert (= (bs_len bs_empty) #x0000000000000000))",
-		// content
 		"(assert (forall ((h (Array Loc (_ BitVec 8))) (s Slice) (i (_ BitVec 64))) (! (=> (bvult i (s_len s)) (= (bs_at (bs_abs h s) i) (select h (elem (s_arr s) (bvadd (s_off s) i))))) :pattern ((bs_at (bs_abs h s) i)))))",
 		"(assert (forall ((h (Array Loc (_ BitVec 8))) (s Slice)) (! (and (= (bs_len (bs_abs h s)) (s_len s)) (=> (= (s_len s) #x0000000000000000) (= (bs_abs h s) bs_empty))) :pattern ((bs_abs h s)))))",
-		// bs_cmp is a total order given by an injective rank (trusted axiom: bytes.Compare is a total order on contents)
 		"(assert (forall ((x ByteSeq) (y ByteSeq)) (! (and (= (= (bs_cmp x y) #x0000000000000000) (= x y)) (= (= (bs_cmp x y) #xffffffffffffffff) (< (bs_rank x) (bs_rank y))) (= (= (bs_cmp x y) #x0000000000000001) (> (bs_rank x) (bs_rank y))) (or (= (bs_cmp x y) #x0000000000000000) (= (bs_cmp x y) #xffffffffffffffff) (= (bs_cmp x y) #x0000000000000001))) :pattern ((bs_cmp x y)))))",
 		"(assert (forall ((x ByteSeq) (y ByteSeq)) (! (=> (= (bs_rank x) (bs_rank y)) (= x y)) :pattern ((bs_rank x) (bs_rank y)))))",
-		// the empty sequence is the least element
 		"(assert (forall ((x ByteSeq)) (! (<= (bs_rank bs_empty) (bs_rank x)) :pattern ((bs_rank x)))))",
-	)
+	} {
+		g.sfAxioms = append(g.sfAxioms, sfAxiom{trigs: bsTrigs, light: true, text: t})
+	}
 	g.quantified = true
 	g.trusted["bytes.Compare/bytes.Equal are modelled as a total order / equality on abstract byte sequences (ByteSeq); the empty sequence is least; extensionality (equal contents ⇒ equal ByteSeq) is axiomatised only where stated"] = true
 }
